@@ -120,6 +120,8 @@ class FftHooks(Hooks):
                                'propagate_fft accepted a call it must refuse (%s)' % case, i)
             elif exp == 'ok':
                 it.probe('check:accept')
+                if isinstance(ev.get('k', {}).get('shape'), str):
+                    it.probe('shape_in_caller_array')
                 if 'scratch' in ev.get('k', {}):
                     it.probe('scratch:' + tag.get('size', '?'))
                     if tag.get('nfields', 1) > 1:
@@ -180,7 +182,7 @@ class FftScenario(Scenario):
                    'per-axis pixel scales are generated commensurate with one propagation wavelength; otherwise FFT != DFT by construction',
                    'the DFT reference is the real propagate_dft (an error common to both propagators is C01/C02 territory)']
     must_hit = ['grid:odd', 'grid:even', 'odd_pupil_even_grid', 'multifield_scratch', 'scratch:exact', 'scratch:larger',
-                'grid_shrinks', 'grid_grows', 'refuse:short-scratch', 'refuse:tilt', 'refuse:big-shape', 'refuse:tilt-not-angular']
+                'grid_shrinks', 'grid_grows', 'refuse:short-scratch', 'refuse:tilt', 'refuse:big-shape', 'refuse:tilt-not-angular', 'shape_in_caller_array']
     probe_names = must_hit + ['grid:mixed', 'coldwarm_audit']
 
     def make_fns(self):
@@ -288,6 +290,15 @@ class FftScenario(Scenario):
             if rng.random() < 0.5 and gr // os_ >= 2 and gc // os_ >= 2:
                 # (a 1x1 output is a one-element field, which lentil treats as a broadcastable scalar: not generated)
                 k['shape'] = [rng.randint(2, gr // os_), rng.randint(2, gc // os_)]
+                if rng.random() < 0.5 or force:
+                    # the caller keeps its output shape in an integer ndarray of its own and passes the same array to every call
+                    shp = nid('shp')
+                    ev.append({'c': c, 'fn': 'array', 'id': shp, 'recipe': {'kind': 'list', 'values': k['shape'], 'dtype': 'int64'}})
+                    k['shape'] = '@' + shp
+            if rng.random() < 0.3 or force:
+                dua = nid('du')
+                ev.append({'c': c, 'fn': 'array', 'id': dua, 'recipe': {'kind': 'list', 'values': list(du) if isinstance(du, (list, tuple)) else [du, du]}})
+                k['pixelscale'] = '@' + dua
             rs = rn = None
             tag = {'expect': 'ok', 'case': 'plain', 'nfields': nfields}
             if sc is not None:
@@ -321,6 +332,10 @@ class FftScenario(Scenario):
                                             gc // os_ + rng.randint(1, 3) if which_ax in ('cols', 'both') else max(1, gc // os_ - rng.randint(0, 2))])
                         if sc is not None:
                             kb['scratch'] = '@' + sc
+                        if rng.random() < 0.5:
+                            shb = nid('shp')
+                            ev.append({'c': c, 'fn': 'array', 'id': shb, 'recipe': {'kind': 'list', 'values': kb['shape'], 'dtype': 'int64'}})
+                            kb['shape'] = '@' + shb
                         ev.append(E('propagate_fft', ['@' + w1], kb, t={'expect': 'refuse', 'case': case}))
                     elif case == 'tilt':
                         how = force.get('tilt_how') or rng.choice(['Tilt', 'wavefront', 'fit', 'Dispersive', 'Dispersive', 'Grism'])
